@@ -32,7 +32,25 @@ def record(cfg, path, call):
     post = drv.project(queries=True)
     rec = {"path": path, "pre": pre, "c": call, "ok": ok, "err": err, "emit": emit,
            "ret": ret, "post": post}
-    if ok and call[0] not in (core.K_UNDO, core.K_REDO):
+    if ok and core.KP_ADDNODE <= call[0] <= core.KP_UPDATTRS:
+        # primitive action: its inverse, then the inverse of the inverse
+        inv = None
+        try:
+            inv = drv.last_prim.inverse()
+            rec["u_ret"] = True
+        except Exception as e:  # noqa: BLE001
+            rec["u_ret"] = False
+            rec["u_exc"] = type(e).__name__
+        rec["u_post"] = drv.project()
+        try:
+            if inv is not None:
+                inv.inverse()
+            rec["r_ret"] = inv is not None
+        except Exception as e:  # noqa: BLE001
+            rec["r_ret"] = False
+            rec["r_exc"] = type(e).__name__
+        rec["r_post"] = drv.project()
+    elif ok and call[0] not in (core.K_UNDO, core.K_REDO):
         try:
             u = bool(drv.tracks.undo())
         except Exception as e:  # noqa: BLE001
